@@ -700,6 +700,33 @@ def spelled_args():
     save("spelled_args", ["C09"], steps)
 
 
+def dotgoit_names():
+    """names that contain the name of the metadata directory without being it: only the root `.goit` is special"""
+    steps = head()
+    for p_ in ("assets.goit/data.txt", "sub/.goit/keep", "x.goit", ".goitx", "a.goit/b.goit/c", "my.goit.d/e", "top.txt"):
+        steps.append(w(p_, p_ + " v1\n"))
+    steps.append({"ev": "add", "paths": ["."]})
+    steps.append({"ev": "lsfiles"})
+    steps.append({"ev": "commit", "msg": "one"})
+    steps.append({"ev": "status"})
+    steps.append({"ev": "commit", "msg": "nothing"})
+    steps.append(w("top.txt", "v2\n"))
+    steps.append(w("sub/.goit/keep", "v2\n"))
+    steps.append({"ev": "add", "paths": ["top.txt", "sub"]})
+    steps.append({"ev": "commit", "msg": "two"})
+    steps.append({"ev": "reset", "mode": "mixed", "arg": esc("HEAD@{1}")})
+    steps.append({"ev": "lsfiles"})
+    steps.append({"ev": "status"})
+    steps.append({"ev": "reset", "mode": "hard", "arg": esc("HEAD@{1}")})
+    steps.append({"ev": "lsfiles"})
+    steps.append({"ev": "rm", "paths": ["assets.goit", "sub/.goit/keep"]})
+    steps.append({"ev": "restores", "paths": ["assets.goit", "sub"]})
+    steps.append({"ev": "restore", "paths": ["assets.goit", "sub/.goit"]})
+    steps.append({"ev": "status"})
+    steps.append({"ev": "catfile", "flag": "p", "idref": "tree:0"})
+    save("dotgoit_names", ["C05", "C17", "C13", "C08", "C09", "C04", "C07"], steps)
+
+
 if __name__ == "__main__":
     name_lengths()
     big_index()
@@ -725,3 +752,4 @@ if __name__ == "__main__":
     ignored_dir_becomes_file()
     deep_path()
     spelled_args()
+    dotgoit_names()
